@@ -72,6 +72,79 @@ pub fn run_hist_runs(report: &mut Report, property: &str, runs: &[(HistCfg, Caps
 }
 
 /// Replay of artefacts produced by engines other than the history explorer.
-pub fn replay_other(engine: &str, _v: &serde_json::Value) -> Vec<String> {
-    vec![format!("MACHINERY-ERROR no replayer for engine {engine:?}")]
+pub fn replay_other(engine: &str, v: &serde_json::Value) -> Vec<String> {
+    match engine {
+        "txn" => crate::explore::in_single_thread_pool(|| replay_txn(v)),
+        _ => replay_by_reenumeration(v),
+    }
+}
+
+/// The transactional system: the recorded history is executed step by step through the same
+/// transition function (which itself replays the history with real transactions).
+fn replay_txn(v: &serde_json::Value) -> Vec<String> {
+    use crate::explore::{Seen, System, Worker};
+    use crate::txnsys::{TState, TxnCfg, TxnSystem};
+    let mut log = Vec::new();
+    let cfg = match TxnCfg::from_json(&v["config"]) {
+        Some(c) => c,
+        None => return vec!["MACHINERY-ERROR cannot parse the txn config".into()],
+    };
+    let actions: Vec<crate::exec::Action> = v["actions"].as_array().map(|a| a.iter().filter_map(crate::exec::Action::from_json).collect()).unwrap_or_default();
+    let n_prefix = cfg.prefix.len();
+    let sys = TxnSystem { cfg };
+    let seen = Seen::new();
+    let mut w = Worker::new("replay");
+    let mut state: TState = sys.initial().remove(0);
+    // the recorded trace contains the actions after the prefix
+    let _ = n_prefix;
+    for (i, a) in actions.iter().enumerate() {
+        let step = sys.step(&mut w, &state, a, &seen);
+        log.push(format!("step {i}: {}", a.to_json()));
+        for viol in &step.violations {
+            log.push(format!("VIOLATION-REPRODUCED signature={} :: {}", viol.signature, viol.what));
+        }
+        match step.next {
+            Some(s) => state = s,
+            None => break,
+        }
+    }
+    log
+}
+
+/// Engines whose cases are enumerated deterministically (shapes, kill points, fault positions,
+/// schedules, fixtures): the artefact names the failing case, and the replay re-runs the
+/// property's enumeration in a child process (evidence and artefacts redirected to a scratch
+/// directory) and reports whether the recorded signature is reported again.
+fn replay_by_reenumeration(v: &serde_json::Value) -> Vec<String> {
+    let property = v["property"].as_str().unwrap_or("").to_string();
+    let signature = v["signature"].as_str().unwrap_or("").to_string();
+    let scratch = crate::common::fresh_scratch_dir("replay");
+    let exe = match std::env::current_exe() {
+        Ok(e) => e,
+        Err(e) => return vec![format!("MACHINERY-ERROR {e}")],
+    };
+    let out = std::process::Command::new(exe)
+        .arg(&property)
+        .env("VERIF_EVIDENCE_DIR", scratch.join("evidence"))
+        .env("VERIF_REPLAYS_DIR", scratch.join("replays"))
+        .output();
+    let _ = std::fs::remove_dir_all(&scratch);
+    let out = match out {
+        Ok(o) => o,
+        Err(e) => return vec![format!("MACHINERY-ERROR cannot re-run {property}: {e}")],
+    };
+    let stdout = String::from_utf8_lossy(&out.stdout);
+    let mut log = vec![format!("re-enumerating {property} (quick tier) for the recorded case {}", v.get("kernel").or(v.get("scenario")).or(v.get("schedule")).or(v.get("fault_config")).map(|x| x.to_string()).unwrap_or_default().chars().take(200).collect::<String>())];
+    let mut found = false;
+    for l in stdout.lines() {
+        if let Some(rest) = l.strip_prefix("DETAIL ") {
+            let same = rest.contains(&format!("signature={signature} "));
+            log.push(format!("{} {}", if same { "VIOLATION-REPRODUCED" } else { "other violation:" }, rest.chars().take(300).collect::<String>()));
+            found |= same;
+        }
+    }
+    if !found {
+        log.push(format!("the signature {signature} is not reported on the current tree"));
+    }
+    log
 }
